@@ -56,12 +56,12 @@ m = {
       "deterministic simulation: multi-world (hash seed, scandir order, env) + baton thread scheduler + history ops, cross-world equality oracle",
       "5.1"),
   chk("C18",
-      "seeded search over keyword directory layouts x include/exclude arguments x build/import histories in one interpreter, each build under a fresh enumeration permutation, short reads and EINTR; a reference model of the layout (harness-side line splitter and walker) and of the decoder filter is compared behaviourally (searchers applied to a probe text; decoder functions identified by module attribute identity; pinned list of the 30 baseline decoders + AST scan for @decoder)",
+      "seeded search over keyword directory layouts (nesting, duplicate basenames, CR/CRLF/blank lines, dot-files, non-NFC and non-ASCII names, names equal to module names, bracketed / relative / trailing-slash directory paths) x include/exclude arguments (lists, tuples, sets, one-shot generators, overlaps, unknown names) x build/import histories in one interpreter (pre-imported decoder modules, plug-in decoder modules, several builds, concurrent FIRST builds with pre-emption inside module bodies and cooperative import locks), each build under a fresh enumeration permutation, short reads and EINTR; a reference model of the layout (harness-side line splitter and walker) and of the decoder filter is compared behaviourally (searchers applied to a probe text; decoder functions identified by module attribute identity; pinned list of the 30 baseline decoders + AST scan for @decoder)",
       "scoped claim (DESIGN 5.2): the layout->registry mapping on a quiescent file system is a pure function; what the simulation adds is enumeration order, short/interrupted reads and import history. Error faults on keyword files are not injected (statement silent). include=[] is not generated (statement ambiguous).",
       "deterministic simulation: simulated keyword directory (enumeration order, short reads, EINTR) + import/build history, reference-model oracle",
       "5.2"),
   chk("C20",
-      "two-party pipeline per scenario: producer = multidecoder.__main__.main() as a simulated process (argv, chunked stdin / file reads, short writes, EINTR, randomised buffer sizes, optional EIO/ENOSPC/EPIPE/producer crash), consumer = independent json.loads and the repo's json_to_tree; fault-free runs are compared exactly (JSON = library tree, default output = one line per node in pre-order with ancestor chain, --replace = flatten under a harness-decided precondition, in-transit corruption must compare unequal); fault runs under 'may fail, never wrong data'",
+      "two-party pipeline per scenario: producer = multidecoder.__main__.main() as a simulated process (argv forms, real descriptor 0 fed in seeded chunks, FILE as regular file or FIFO, descriptor-level and buffered output with short writes, EINTR, randomised buffer sizes, stdout encodings, optional EIO/ENOSPC/EPIPE/producer crash), consumer = independent json.loads and the repo's json_to_tree (also with pass-through keyword arguments, and after dropping the root); fault-free runs are compared exactly (JSON = library tree, default output = one line per node in pre-order with ancestor chain, --replace = flatten under a harness-decided precondition, ten kinds of in-transit corruption must compare unequal and the corrupted tree must itself round-trip); fault runs are judged against a fault-free reference run under 'may fail, never wrong data'; a sample of fault-free runs is repeated as a real child process",
       "scoped claim (DESIGN 5.3): the pure clauses (round trip, structural equality) are checked on the trees that cross the pipe (scan results made diverse on purpose), not on arbitrary synthetic trees; stdout is always UTF-8; in-process process model validated against a real child process only on a sample",
       "deterministic simulation: CLI as simulated process over simulated raw streams with fault injection, pipe consumer, reference renderings",
       "5.3"),
